@@ -795,10 +795,13 @@ def copyChunk : Nat → S → Nat → Nat → Nat → S × Nat × CopyEnd
 
 def setLimit (s : S) (n : Nat) : S := setW s { s.w with limit := n }
 
+/-- `Conn.resumeLineLimit`: the limit comes back after a chunk; what is buffered behind the chunk is counted -/
+def armLimit (s : S) : S := setW s (Wire.resume s.w s.cfg.maxLine)
+
 /-- skip the payload of a refused BDAT command (`discardChunk`), the line limit lifted meanwhile -/
 def discardChunkN (s : S) (size? : Option Nat) : S :=
   match size? with
-  | some n => setW s { (discardN (wireFuel s.w) { s.w with limit := 0 } n) with limit := s.cfg.maxLine }
+  | some n => setW s (Wire.resume (discardN (wireFuel s.w) { s.w with limit := 0 } n) s.cfg.maxLine)
   | none => s
 
 def setBdatStatus (s : S) : S :=
@@ -848,7 +851,7 @@ def bdatFail (s : S) (k left : Nat) (last : Bool) (err : BRes) : S × Bool :=
   let s := bdatFailReplies s k last err
   let s := if err == errPanic then closeConn s else s
   let s := resetConn s
-  (setLimit s s.cfg.maxLine, false)
+  (armLimit s, false)
 
 /-- the LAST chunk has been copied: `bdatPipe.Close()`, the verdict(s), the end of the transaction -/
 def bdatFinal (s : S) (k : Nat) : S × Bool :=
@@ -874,7 +877,7 @@ def addBytesReceived (s : S) (n : Nat) : S := { s with c := { s.c with bytesRece
 /-- a chunk has been copied completely -/
 def bdatDone (s : S) (k size : Nat) (last : Bool) : S × Bool :=
   -- the chunk has been read: what follows is a command line again
-  let s := setLimit (addBytesReceived s size) s.cfg.maxLine
+  let s := armLimit (addBytesReceived s size)
   if !last then (reply s 250 ⟨2, 0, 0⟩ "Continue", false)
   else bdatFinal s k
 
